@@ -463,6 +463,103 @@ def check_stream_histories(rec, W, rng, n):
             rec.violation("C05/H2-content-length-mismatch", f"{ops}: Content-Length {cls_} but {len(body)} body bytes were produced ({body!r})", case, monitor="H2")
 
 
+def check_shared_response_and_broken_hosts(rec, W):
+    """Schedule: one response object (a prebuilt page) answers a GET and a HEAD at the same time on two threads, with
+    yields injected inside get_wsgi_response / get_wsgi_headers / get_app_iter - each request is answered as if alone.
+    Fault: the current URL cannot be reconstructed (a malformed Host) while a relative IRI Location is to be made
+    absolute - either the failure surfaces or the Location that goes out is an ASCII URI."""
+    import sys
+    import threading
+    import time as _time
+
+    Response, create_environ = W.Response, W.create_environ
+    mon = sys.monitoring
+    TOOL = 5
+    try:
+        mon.use_tool_id(TOOL, "verif-yield-c05")
+    except ValueError:
+        pass
+    inj = [0]
+
+    def on_line(code, line):
+        inj[0] += 1
+        if inj[0] % 3 == 0:
+            _time.sleep(0)
+
+    codes = []
+    for fn in (Response.get_wsgi_response, Response.get_wsgi_headers, Response.get_app_iter, Response.__call__):
+        codes.append(fn.__code__)
+    mon.register_callback(TOOL, mon.events.LINE, on_line)
+    for c in codes:
+        mon.set_local_events(TOOL, c, mon.events.LINE)
+    old_si = sys.getswitchinterval()
+    sys.setswitchinterval(1e-5)
+    bad = []
+    try:
+        for round_ in range(40):
+            r = Response(["h\u00e9llo ", "w\u00f6rld"])
+            body = "h\u00e9llo w\u00f6rld".encode()
+            start = threading.Barrier(4)
+
+            def serve(method):
+                env = create_environ("/", method=method)
+                start.wait()
+                for _ in range(15):
+                    it, st, hd = r.get_wsgi_response(env)
+                    data = b"".join(it)
+                    cl = dict(hd).get("Content-Length")
+                    if method == "HEAD" and data:
+                        bad.append(("HEAD answered with body bytes", data))
+                    if method == "GET" and (data != body or cl != str(len(body))):
+                        bad.append(("GET answered with", data, cl))
+
+            ts = [threading.Thread(target=serve, args=(m,)) for m in ("GET", "HEAD", "GET", "HEAD")]
+            for t in ts:
+                t.start()
+            for t in ts:
+                t.join()
+            rec.case()
+            rec.observe("one_response_served_on_four_threads")
+            if bad:
+                break
+    finally:
+        sys.setswitchinterval(old_si)
+        for c in codes:
+            mon.set_local_events(TOOL, c, 0)
+        mon.register_callback(TOOL, mon.events.LINE, None)
+        try:
+            mon.free_tool_id(TOOL)
+        except Exception:  # noqa: BLE001
+            pass
+    rec.observe("injected_yields", inj[0])
+    rec.nontrivial(("shared-response-threads",))
+    if bad:
+        key = "C05/H4-body-for-bodyless" if bad[0][0].startswith("HEAD") else "C05/H2-content-length-mismatch"
+        rec.violation(key, f"one response object serving GET and HEAD on four threads: {bad[0]!r} ({len(bad)} bad answers)", {"part": "shared-response-threads"}, monitor="H2")
+    # ---- broken Host + relative IRI Location
+    for host in ("[::1", "[", "localhost:abc", "\u00fc..example", "exa mple", "a..b", "h:99999"):
+        for loc in ("/zi\u00e9l/\u2603", "rel/\u00e9?q=\u00fc", "http://\u00fc..example/p"):
+            for auto in (True, False):
+                env = create_environ("/caf\u00e9")
+                env["HTTP_HOST"] = host
+                r = Response("x", status=302)
+                r.headers["Location"] = loc
+                r.autocorrect_location_header = auto
+                case = {"part": "location-broken-host", "host": host, "location": loc, "autocorrect": auto}
+                rec.case()
+                rec.nontrivial(("location-broken-host", host, loc, auto))
+                rec.observe("locations_with_unusable_current_url")
+                try:
+                    it, st, hd = r.get_wsgi_response(env)
+                    b"".join(it)
+                except (ValueError, UnicodeError):
+                    rec.observe("location_failure_surfaced")
+                    continue
+                L = dict(hd).get("Location")
+                if L is None or not L.isascii():
+                    rec.violation("C05/H3-location-not-ascii-uri", f"Host {host!r}, Location {loc!r}, autocorrect {auto}: {L!r} reached the server", case, monitor="H3")
+
+
 def world():
     from werkzeug.test import create_environ
     from werkzeug.wrappers import Response
@@ -698,6 +795,8 @@ def run(shard, rec, rng):
         check_reuse_and_faulty_callback(rec, W)
     if shard["index"] % 4 == 1:
         check_stream_histories(rec, W, rng, 400)
+    if shard["index"] % 4 == 2:
+        check_shared_response_and_broken_hosts(rec, W)
     phase = int(shard["_seed"]) % cfg["stride"]
     n = 0
     for cell in itertools.product(KINDS, STAT, METHODS, CLS, LOCS, [True, False], [0, 2], [False, True]):
